@@ -740,3 +740,41 @@ fn c13_decode_statx() {
     kani::cover!(sec < 0 && nsec > 0, "before 1970");
     kani::cover!(sec > 0);
 }
+
+//@ prop: C13
+//@ tier: quick
+//@ what: Metadata / FileType / Permissions accessors agree with the POSIX macros on the mode the kernel reported, for EVERY 16-bit st_mode: is_file == S_ISREG, is_dir == S_ISDIR, is_symlink == S_ISLNK, is_socket == S_ISSOCK, is_block_device == S_ISBLK, is_character_device == S_ISCHR, is_named_pipe == S_ISFIFO (the type is the whole S_IFMT field, not one bit), and the nine permission predicates are the nine rwx bits; Metadata's shortcuts agree with its FileType
+//@ bound: stx_mode any u16
+//@ encodes: fs::Metadata::{file_type,is_dir,is_file,is_symlink,permissions,len,block_size,filled}; fs::FileType::is_*; fs::Permissions::*_can_*
+#[kani::proof]
+#[kani::unwind(3)]
+fn c13_decode_mode() {
+    let mut st: crate::io_uring::fs::Stat = unsafe { std::mem::zeroed() };
+    let mode: u16 = kani::any();
+    st.stx_mode = mode;
+    st.stx_size = kani::any();
+    st.stx_blksize = kani::any();
+    let size = st.stx_size;
+    let blk = st.stx_blksize;
+    let md = crate::fs::Metadata(st);
+    let ty = md.file_type();
+    // POSIX: S_IFMT = 0o170000; S_IFSOCK 0o140000, S_IFLNK 0o120000, S_IFREG 0o100000,
+    // S_IFBLK 0o060000, S_IFDIR 0o040000, S_IFCHR 0o020000, S_IFIFO 0o010000
+    let fmt = mode & 0o170000;
+    assert!(ty.is_file() == (fmt == 0o100000), "is_file == S_ISREG");
+    assert!(ty.is_dir() == (fmt == 0o040000), "is_dir == S_ISDIR");
+    assert!(ty.is_symlink() == (fmt == 0o120000), "is_symlink == S_ISLNK");
+    assert!(ty.is_socket() == (fmt == 0o140000), "is_socket == S_ISSOCK");
+    assert!(ty.is_block_device() == (fmt == 0o060000), "is_block_device == S_ISBLK");
+    assert!(ty.is_character_device() == (fmt == 0o020000), "is_character_device == S_ISCHR");
+    assert!(ty.is_named_pipe() == (fmt == 0o010000), "is_named_pipe == S_ISFIFO");
+    assert!(md.is_file() == ty.is_file() && md.is_dir() == ty.is_dir() && md.is_symlink() == ty.is_symlink());
+    let p = md.permissions();
+    assert!(p.owner_can_read() == (mode & 0o400 != 0) && p.owner_can_write() == (mode & 0o200 != 0) && p.owner_can_execute() == (mode & 0o100 != 0));
+    assert!(p.group_can_read() == (mode & 0o040 != 0) && p.group_can_write() == (mode & 0o020 != 0) && p.group_can_execute() == (mode & 0o010 != 0));
+    assert!(p.others_can_read() == (mode & 0o004 != 0) && p.others_can_write() == (mode & 0o002 != 0) && p.others_can_execute() == (mode & 0o001 != 0));
+    assert!(md.len() == size && md.block_size() == blk);
+    kani::cover!(fmt == 0o140000, "socket");
+    kani::cover!(fmt == 0o120000, "symlink");
+    kani::cover!(fmt == 0o100000 && mode & 0o777 == 0o640);
+}
